@@ -13,6 +13,7 @@ _FW.CASES_PER_FILE = 150     # this property's families are evaluated one after 
 
 PID = "C12"
 PROP_FILES = ["Prop"]
+EXTRA_COQ_DIRS = ["C04", "C07"]   # ProofsC04.v / ProofsC07.v: this model is the same function as theirs on rationals
 ALLOWED_AXIOMS = [r"ClassicalDedekindReals\.sig_forall_dec$", r"ClassicalDedekindReals\.sig_not_dec$",
                   r"Classical_Prop\.classic$", r"FunctionalExtensionality\.functional_extensionality_dep$"]
 RULE = ("exact families: the real freq_response / dft / LinearFilter.__call__ run on Gaussian rationals (class CQ), "
